@@ -628,6 +628,36 @@ Definition strategy (v : srv) (choices : list N) (hist : list (list outev)) : li
   | batch :: older => answer_batch v (skipn (length (concat older)) choices) batch
   end.
 
+(* ---- the server's own view of what it advertises (spec side of `requests only advertised capabilities`) ---- *)
+(* the name a CAP LS / CAP NEW item advertises, and the name a CAP DEL item withdraws *)
+Definition cap_name (item0 : str) : str :=
+  let item := strip_eq_tilde (length item0) item0 in
+  match split1 [61] item with Some (cap, _) => cap | None => item end.
+Definition del_name (cap0 : str) : str := match split_char 61 cap0 with x :: _ => x | [] => cap0 end.
+
+(* the server-side advertised set after a message *)
+Definition upd (m : inmsg) (adv : list str) : list str :=
+  match m with
+  | ICap args =>
+      match cap_sub args with
+      | Some sub =>
+          if seq_eqb sub [108;115] then
+            match args with
+            | [_; _; star; caps] => if seq_eqb star s_STAR then sunion adv (map cap_name (words caps)) else adv
+            | [_; _; caps] => sunion adv (map cap_name (words caps))
+            | _ => adv
+            end
+          else if seq_eqb sub [110;101;119] then
+            match args with [_; _; caps] => sunion adv (map cap_name (words caps)) | _ => adv end
+          else if seq_eqb sub [100;101;108] then
+            match args with [_; _; caps] => fold_left (fun a cp => sremove (del_name cp) a) (words caps) adv | _ => adv end
+          else adv
+      | None => adv
+      end
+  | IReset => []
+  | _ => adv
+  end.
+
 (* ---- the nick generator: Irc.do43x / Irc._getNextNick ----
    The registration machine above answers every nick rejection with a NICK
    (do43x s).  The refinement below adds what _getNextNick really does: it pops
@@ -790,6 +820,7 @@ Definition vMsg (m : inmsg) : value :=
    run (1 (policy parseDuration)) -> () | (port)        parseStsPolicy
    run (5 (srv choices history)) -> messages             the conformant-server strategy
    run (7 (srv plan k choices history)) -> messages      the conformant server that also rejects nicks
+   run (8 (msg advertised)) -> advertised'               the server-side advertised set after a message
    run (6 string) -> chunks                              authenticate_generator(string, base64ify=False) *)
 Definition run (v : value) : value :=
   let p := nth_v 1 v in
@@ -800,6 +831,7 @@ Definition run (v : value) : value :=
   | 7 => L (map vMsg (strategyN (gSrv (nth_v 0 p)) (map (fun x => N.to_nat (gN x)) (gL (nth_v 1 p))) (N.to_nat (gN (nth_v 2 p)))
                                 (map gN (gL (nth_v 3 p))) (map (fun b => map gOut (gL b)) (gL (nth_v 4 p)))))
   | 1 => vO (fun pd => L [I (fst pd); I (snd pd)]) (parseStsPolicy2 (gS (nth_v 0 p)) (gB (nth_v 1 p)))
+  | 8 => vLS (upd (gMsg (nth_v 0 p)) (gLS (nth_v 1 p)))
   | 6 => vLS (auth_gen (gS p))
   | 5 => L (map vMsg (strategy (gSrv (nth_v 0 p)) (map gN (gL (nth_v 1 p))) (map (fun b => map gOut (gL b)) (gL (nth_v 2 p)))))
   | _ => L []
